@@ -345,6 +345,26 @@ theorem crossDevice_eff (env : Env) (htmp : ∀ k l, isTemporaryName (env.tmpNam
       have htt := htmp st1.tmpCount (akeys cs)
       generalize htmpn : env.tmpName st1.tmpCount (akeys cs) = tmp at h htt
       have hne : name ≠ tmp := by rintro rfl; rw [hname] at htt; cases htt
+      split at h
+      · -- the copy is preempted: the partial temporary is removed again
+        cases hp : fsPut st1.fs parent tmp (Node.file (sf.data.take copyPreemptionBytes) 0o600 0 0) false with
+        | none =>
+          rw [hp] at h; simp only [Prod.mk.injEq] at h; obtain ⟨rfl, rfl⟩ := h
+          exact ⟨hq1.1, Or.inl hq1.2, fun _ => Unch.of_eq h1, fun hc => by simp at hc⟩
+        | some fs2 =>
+          rw [hp] at h
+          simp only at h
+          obtain ⟨_, _, hf2⟩ := fsPut_spec st1.fs fs2 parent tmp _ false hp
+          have hu2 : Unch st.fs fs2 := by rw [← h1]; exact unch_of_frame_tmp _ _ parent tmp htt hf2
+          rcases hu : opUnlink env { st1 with fs := fs2, tmpCount := st1.tmpCount + 1 } parent tmp with ⟨b2, st4⟩
+          obtain ⟨hq4, hu4⟩ := opUnlink_eff env _ parent tmp b2 st4 hu
+          rw [hu] at h
+          simp only [Prod.mk.injEq] at h; obtain ⟨rfl, rfl⟩ := h
+          refine ⟨by rw [hq4.1]; exact hq1.1, Or.inl (by rw [hq4.2]; exact hq1.2), fun _ => ?_, fun hc => by simp at hc⟩
+          rcases hu4 with ⟨_, hfs⟩ | ⟨_, hfs⟩
+          · obtain ⟨_, _, hfr⟩ := fsUnlink_spec _ _ _ _ hfs
+            exact hu2.trans (unch_of_frame_tmp _ _ parent tmp htt hfr)
+          · simp only at hfs; rw [hfs]; exact hu2
       cases hp : fsPut st1.fs parent tmp (Node.file sf.data 0o600 0 0) false with
       | none =>
         rw [hp] at h; simp only [Prod.mk.injEq] at h; obtain ⟨rfl, rfl⟩ := h
